@@ -169,9 +169,10 @@ CLAIMED["C09"] = dict(
         ".xz Stream decoder and .lzma decoder the payload decoder is initialised only if the needed amount fits the limit, "
         "otherwise MEMLIMIT_ERROR with nothing allocated, the amount reported, lower limits refused, the exact amount "
         "accepted and decoding resumed at the same point.",
-   note="NOT covered: the threaded decoder's memlimit_threading/memlimit_stop accounting, .lz and index/file-info decoder "
-        "gates, LZMA coder struct sizes beyond the LZ layer, lzma_stream_encoder_mt_memusage / outq, the xz tool's "
-        "--memlimit adjustment logic (coder.c), real peak heap of a process.")
+   note="Also: the threaded decoder holds only the filter memory when it falls back to direct mode; xz -T1 with a user limit "
+        "shrinks every chain's dictionary or fails. NOT covered: the rest of the threaded decoder's accounting, .lz and "
+        "index/file-info gates, LZMA coder struct sizes beyond the LZ layer, mt encoder memusage / outq, xz's thread-count "
+        "reduction branch, real peak heap of a process.")
 CLAIMED["C04"] = dict(
    text="Memory safety, absence of undefined behaviour, source assert()s and bounded termination (unwinding assertions) are "
         "checked by CBMC in EVERY obligation; this property re-runs the decoder/parser obligations (header decoders over "
